@@ -274,6 +274,24 @@ func (sq *Queue) MergeParentProperties() {
 	sq.mergeProperties(parentProps)
 }
 
+// InheritParentTemplate gives a parent queue without a child template of its own the template its parent holds,
+// as addChildQueue does when the queue is created. ApplyConf sets the template from the queue's own config only.
+// This should be called after ApplyConf during config reload, parents first. Lock protected.
+func (sq *Queue) InheritParentTemplate() {
+	if sq.parent == nil {
+		return
+	}
+	// get the parent template outside of the lock to avoid potential deadlocks with parent queue lock
+	sq.parent.RLock()
+	parentTemplate := sq.parent.template
+	sq.parent.RUnlock()
+	sq.Lock()
+	defer sq.Unlock()
+	if !sq.isLeaf && sq.template == nil {
+		sq.template = parentTemplate
+	}
+}
+
 // mergeProperties merges filtered parent properties with this queue's config properties.
 // Config properties already set on the queue (from applyConf) override parent properties.
 // The parent map is a clean copy from getProperties() and becomes the resulting map.
